@@ -5,6 +5,7 @@ resource classes - on the model file system rooted at /srv/root with a sibling /
 solver variable (assumption A3: every decoded string is a reachable path_info on both front ends).
 """
 
+import xv
 from typing import List
 
 import xandikos.webdav as Wd
@@ -250,8 +251,8 @@ def _real(method, path_info, hrefs=None, root_store=False):
     import os
     import subprocess
     p = subprocess.run(["/venv/bin/python", os.path.join(os.path.dirname(__file__), "..", "real_c13.py"),
-                        json.dumps([method, path_info, hrefs, root_store])], capture_output=True, text=True, cwd="/repo",
-                       env={"PATH": os.environ.get("PATH", "")})
+                        json.dumps([method, path_info, hrefs, root_store])], capture_output=True, text=True, cwd=xv.REPO,
+                       env={"PATH": os.environ.get("PATH", ""), "PYTHONPATH": xv.REPO})
     if p.returncode != 0:
         return (None, "real replay failed to run: " + p.stderr[-400:])
     ok, detail = json.loads(p.stdout.strip().splitlines()[-1])
